@@ -69,3 +69,17 @@ Example C11_ex_returned_promise :
   let s := run_prog [PNew; PThenP 0 MPending HThrow; PThen 1 true HThrow; PThen 3 false HSwallow; PResolve 0 1] in
   stack s = [] /\ plog (exec s (PInner 1 false 5)) = [ERes 1 [1%N]; ERej 2 5; ERej 3 5].
 Proof. vm_compute. split; reflexivity. Qed.
+
+(* Attached after settlement: then() on a promise that is already fulfilled runs the fulfilment callback at once, exactly once, with
+   the promise's value; on a rejected one the rejection callback with its exception; on a pending one nothing - and nothing else
+   runs (the derived promise is new).  s: any state between two operations. *)
+Theorem C11_then_on_settled_promise : forall s src vr h,
+  stack s = [] ->
+  plog (exec s (PThen src vr h)) =
+    plog s ++ match cs (core_at s src) with
+              | Fulfilled v => [ERes (length (conts s)) v]
+              | Rejected e => [ERej (length (conts s)) e]
+              | Pending => []
+              end.
+Proof. exact then_on_settled. Qed.
+Print Assumptions C11_then_on_settled_promise.
